@@ -305,3 +305,51 @@ pub fn guarded(rep: &mut Report, case: u64, f: impl FnOnce(&mut Report)) {
         );
     }
 }
+
+/// C20 over another engine's histories: run the case twice (the second time on a fresh thread) and
+/// require identical traces; the trace hash goes to `hashes` for the driver's cross-process comparison.
+pub fn guarded_det(
+    rep: &mut Report,
+    case: u64,
+    hashes: &mut std::collections::BTreeMap<u64, u64>,
+    f: &(dyn Fn(&mut Report) + Sync),
+) {
+    crate::ledger::reset_ids();
+    guarded(rep, case, |r| f(r));
+    let a = trace::take();
+    let cfg = rep.cfg.clone();
+    let b: Vec<String> = std::thread::scope(|s| {
+        s.spawn(|| {
+            crate::ledger::reset_ids();
+            let mut scratch = Report::new(cfg);
+            scratch.cfg.replay_dir = "/dev/null/none".into();
+            guarded(&mut scratch, case, |r| f(r));
+            trace::take()
+        })
+        .join()
+        .unwrap_or_default()
+    });
+    let mut h = 0x9E37u64;
+    for l in &a {
+        h = crate::rng::mix(h ^ crate::rng::hash_str(l));
+    }
+    hashes.insert(case, h);
+    rep.bump("transcript_lines", a.len() as u64);
+    if a != b {
+        let i = a.iter().zip(b.iter()).position(|(x, y)| x != y).unwrap_or(a.len().min(b.len()));
+        let msg = format!(
+            "the same history produced different transcripts when replayed in this process (second run on another thread): first difference at line {}: `{}` vs `{}`",
+            i,
+            a.get(i).map(|s| s.chars().take(240).collect::<String>()).unwrap_or_default(),
+            b.get(i).map(|s| s.chars().take(240).collect::<String>()).unwrap_or_default()
+        );
+        rep.violation("C20", case, i, msg, "C20:replay transcript mismatch".into(), &a);
+    } else if a.len() >= 10 {
+        rep.distinct(h);
+    }
+}
+
+pub fn push_transcripts(rep: &mut Report, hashes: &std::collections::BTreeMap<u64, u64>) {
+    let doc: std::collections::BTreeMap<String, String> = hashes.iter().map(|(c, h)| (c.to_string(), format!("{:016x}", h))).collect();
+    rep.notes.push(format!("transcripts={}", serde_json::to_string(&doc).unwrap()));
+}
